@@ -75,9 +75,8 @@ impl ErrorKind {
 
 /// R5: `.wrap(..)` / `.with_wrap(..)` only add message context; `kind()` is preserved
 /// (proved from the repository text of `ErrorImpl::with_wrap` and `Error::with_wrap` in U16; the `Result<T,E>` impl and the
-/// default method `wrap`, which only forward to those two, stay hash-frozen).
-//@frozen src/error.rs :: impl ErrorExt for Result<T,E> fn with_wrap
-//@frozen src/error.rs :: impl ErrorExt fn wrap
+/// default method `wrap`, which only forward to those two, are proved from their repository text in U29 against the abstract
+/// relation `wrapped_of`).
 pub trait ErrorExt: Sized {
     spec fn wrapped_of(self, inner: Self) -> bool;
     fn wrap<S>(self, context: S) -> (r: Self) ensures r.wrapped_of(self);
